@@ -24,6 +24,7 @@ type Promise struct {
 	cutDone   *Promise // the parent this promise has already cut to
 	repeat    bool
 	recover   func(error) *Promise
+	exited    *Promise // the catching promise whose goal has exited: it is inactive for errors raised from here on
 }
 
 // Delay delays an execution of k.
@@ -150,11 +151,25 @@ func (s *promiseStack) popUntil(p *Promise) {
 	}
 }
 
+func (p *Promise) in(ps []*Promise) bool {
+	for _, q := range ps {
+		if p == q {
+			return true
+		}
+	}
+	return false
+}
+
 func (s *promiseStack) recover(err error) error {
 	// look for an ancestor promise with a recovering function that is applicable to the error.
+	var exited []*Promise
 	for len(*s) > 0 {
 		pop := s.pop()
-		if pop.recover == nil {
+		if pop.exited != nil {
+			exited = append(exited, pop.exited)
+			continue
+		}
+		if pop.recover == nil || pop.in(exited) {
 			continue
 		}
 		if q := pop.recover(err); q != nil {
